@@ -19,9 +19,17 @@ type Panic struct {
 	Entry string `json:"entry"` // outermost library function on the stack
 	Stack string `json:"stack"`
 	Fault bool   `json:"fault,omitempty"` // memory fault (write to protected input / read past its end)
+	// Deviation: not a panic but another observation that every judge treats
+	// like one (the exported entry points disagree with each other on one input).
+	Deviation bool `json:"deviation,omitempty"`
 }
 
-func (p *Panic) Sig() string { return "panic:" + p.Class + "@" + p.Site }
+func (p *Panic) Sig() string {
+	if p.Deviation {
+		return "deviation:" + p.Class + "@" + p.Site
+	}
+	return "panic:" + p.Class + "@" + p.Site
+}
 
 const libPrefix = "github.com/evanphx/json-patch"
 const harnessPrefix = "github.com/evanphx/json-patch/v5/verifharness"
